@@ -6,6 +6,20 @@ BASELINE = ("cd /repo && cargo nextest run --workspace --no-fail-fast --test-thr
             "|| cargo test --workspace --no-fail-fast --offline")
 
 CHECKS = {
+    "C02": dict(
+        category="exploration",
+        text=("One integration step of the real TransformedHamiltonian (driven through cfg-guarded hooks) is compared with a "
+              "dense leapfrog written in the harness for H = -logp + 1/2 p'FF'p, with F assembled from the generated diagonal / "
+              "low-rank parameters by the documented formula; plus forward-backward reversibility, unit Jacobian determinant "
+              "(central differences), second-order energy error, F(F^-1(x)) = x, whitened gradient = F'grad, logdet = -ln|det F| "
+              "(harness LU), re-derivation after a transformation change, and ExactNormal exactness on a Gaussian whitened by F. "
+              "The dimension x rank x kind x direction product is enumerated completely; everything else is generated search."),
+        design_ref="DESIGN.md section 3, C02",
+        note=("Reversibility is judged only where the round trip is numerically well conditioned (eps^2 |F|^2 Hmax <= 1e4, "
+              "ESH delta <= 3); the O(eps^2) law is judged for the Euclidean and ExactNormal integrators in the measured "
+              "asymptotic regime; the translation of the affine map is checked through round trips only."),
+        technique="proptest-generated (density, transformation, state, step) cases vs dense reference leapfrog and algebraic laws",
+    ),
     "C17": dict(
         category="exploration",
         text=("Every vector operation reachable through the public Math API of CpuMath is compared with the "
